@@ -90,7 +90,14 @@ type cliCase struct {
 }
 
 // program file names: stems ending in every letter of ".bcl", with dots, one letter
-var cliProgNames = []string{"prog.bcl", "prog.bcl", "calc.bcl", "lib.bcl", "public.bcl", "a.b.bcl", "x.bcl", "bcl.bcl", "cc.bcl", "l.bcl"}
+// … and long ones (the name travels into the dump: 60, 86…96 and 250 bytes)
+var cliProgNames = func() []string {
+	ns := []string{"prog.bcl", "prog.bcl", "calc.bcl", "lib.bcl", "public.bcl", "a.b.bcl", "x.bcl", "bcl.bcl", "cc.bcl", "l.bcl"}
+	for _, n := range []int{60, 86, 87, 88, 89, 90, 91, 92, 93, 96, 250} {
+		ns = append(ns, strings.Repeat("n", n-4)+".bcl")
+	}
+	return ns
+}()
 
 var cliSubsets = func() []string {
 	var out []string
